@@ -5056,6 +5056,28 @@ class PyCdlib:
 
         num_bytes_to_remove = 0
 
+        # Check the Joliet and UDF entries before anything is changed; the
+        # ISO9660 entry is checked (and removed) first below.
+        if joliet_path is not None:
+            joliet_child = self._find_joliet_record(self._normalize_joliet_path(joliet_path))
+            if joliet_child.is_root:
+                raise pycdlibexception.PyCdlibInvalidInput('Cannot remove base directory')
+            if not joliet_child.is_dir():
+                raise pycdlibexception.PyCdlibInvalidInput('Cannot remove a file with rm_directory (try rm_file instead)')
+            if len(joliet_child.children) > 2:
+                raise pycdlibexception.PyCdlibInvalidInput('Directory must be empty to use rm_directory')
+
+        if udf_path is not None:
+            if self.udf_root is None:
+                raise pycdlibexception.PyCdlibInvalidInput('Can only specify a UDF path for a UDF ISO')
+            if utils.normpath(udf_path) == b'/':
+                raise pycdlibexception.PyCdlibInvalidInput('Cannot remove base directory')
+            (udf_check_ident, udf_check_entry) = self._find_udf_record(utils.normpath(udf_path))
+            if udf_check_ident is None or not udf_check_ident.is_dir() or udf_check_entry is None:
+                raise pycdlibexception.PyCdlibInvalidInput('Cannot remove a file with rm_directory (try rm_file instead)')
+            if len(udf_check_entry.fi_descs) > 1:
+                raise pycdlibexception.PyCdlibInvalidInput('Directory must be empty to use rm_directory')
+
         if iso_path is not None:
             iso_path_bytes = utils.normpath(iso_path)
 
